@@ -112,6 +112,28 @@ def flux_init(ix, R):
             why.append('default widths are not compute_bin_edges(sorted grid)[-1]')
         R.check('1.init', 'PERM', site, stmt, not why, key='; '.join(why), detail='; '.join(why),
                 loc=f.loc())
+        # what the attributes hold when the constructor returns
+        fa = mkflow(ix, site, forward_attrs=True)
+        pa = param_env(fa, f, ['g', 'w'])
+        b = dict(pa, p=spec(fa, 'argsort(g)', pa))
+        b['W1'] = spec(fa, "_guard(w is None, compute_bin_edges(g[p])[-1], _guard(hasattr(w, '__len__'), w[p], w))", b)
+        wantw = spec(fa, "_guard(hasattr(W1, '__len__'), W1, ones_like(g[p])*W1)", b)
+        gotw = fa.conv.env.get('@self._wngrid_width')
+        gotg = fa.conv.env.get('@self._wngrid')
+        why2 = []
+        if gotg is None or not fa.tab.equal(gotg, spec(fa, 'g[p]', b)):
+            why2.append('self._wngrid ends as %s' % (fmt(fa, gotg) if gotg is not None else None))
+        if gotw is None or not fa.tab.equal(gotw, wantw):
+            why2.append('self._wngrid_width ends as %s' % (fmt(fa, gotw)[:300] if gotw is not None else None))
+        rs = fa.of('raise')
+        okr = len(rs) == 1 and rs[0].guards and fa.tab.equal(
+            rs[0].guards[-1].rf, spec(fa, 'len(w) != len(g[p])', b)) if rs else False
+        if not okr:
+            why2.append('a width array of another length than the grid is not rejected')
+        R.check('1.init.final', 'ALG', site,
+                'after construction: grid = sorted grid; widths = given array re-ordered with the grid (length checked), '
+                'or the given scalar / the default spacing of the sorted grid, expanded to one width per bin',
+                not why2, key='; '.join(why2), detail='; '.join(why2), loc=f.loc())
 
 
 def flux_bindown(ix, R):
@@ -146,9 +168,32 @@ def flux_bindown(ix, R):
                 loc=f.loc(feeding[0].node) if feeding else f.loc())
     # ---- stores of results
     sts = [e for e in fl.of('store') if len(e.loops) == 1]
-    spec_st = [e for e in sts if not e.guards or all(g.early for g in e.guards)]
-    err_st = [e for e in sts if e not in spec_st]
-    fs = one(spec_st, 'binned spectrum store')
+    # the buffers are identified by their role in the returned tuple (grid, spectrum, error, width)
+    r0 = one(fl.of('return'), 'return')
+    ra0 = atom_of(fl, r0.value)
+    if ra0 is None or ra0.head != 'tuple' or len(ra0.args) != 4:
+        R.fail('4.roles.flux', 'SIB', site, 'bindown returns (grid, spectrum, error, width)',
+               key='returns %s' % unparse(r0.value_ast), detail='returns %s' % unparse(r0.value_ast), loc=f.loc(r0.node))
+        return
+
+    def leaves(rf):
+        a = atom_of(fl, rf)
+        if a is not None and a.head == 'guard':
+            return leaves(a.args[1]) + leaves(a.args[2])
+        return [rf]
+    fbuf = ra0.args[1]
+    ebufs = leaves(ra0.args[2])
+    spec_st = [e for e in sts if atom_of(fl, e.target) is not None and atom_of(fl, e.target).head == 'idx'
+               and tab.equal(atom_of(fl, e.target).args[0], fbuf)]
+    err_st = [e for e in sts if atom_of(fl, e.target) is not None and atom_of(fl, e.target).head == 'idx'
+              and any(tab.equal(atom_of(fl, e.target).args[0], x) for x in ebufs)]
+    if len(spec_st) != 1 or len(err_st) != 1:
+        R.fail('4.roles.flux', 'SIB', site, 'the returned spectrum and error arrays are each filled by one store per target bin',
+               key='%d / %d stores' % (len(spec_st), len(err_st)),
+               detail='%d stores into the returned spectrum, %d into the returned error' % (len(spec_st), len(err_st)),
+               loc=f.loc(r0.node))
+        return
+    fs = spec_st[0]
     lp = fs.loops[0]
     i = lp.index
     # locate the window from the flux slice
@@ -191,6 +236,15 @@ def flux_bindown(ix, R):
             okedges and oa.args[1].lo is not None and oa.args[1].lo.const() == 1 and oa.args[1].hi is None,
             key='edges %s / %s' % (fmt(fl, omin), fmt(fl, omax)),
             detail='native edges are %s and %s' % (fmt(fl, omin), fmt(fl, omax)), loc=f.loc(ss[0].node))
+    wsel = "_guard(hasattr(w, '__len__'), w[p], w)"
+    wants_w = [spec(fl, '_guard(%s is None, compute_bin_edges(gs)[-1], %s)' % (wsel, wsel), b),
+               spec(fl, '_guard(w is None, compute_bin_edges(gs)[-1], %s)' % wsel, b),
+               spec(fl, '_guard(%s is None, compute_bin_edges(gs)[1], %s)' % (wsel, wsel), b)]
+    R.check('3b.width', 'DOM', site,
+            'native bin widths: the given widths (an array re-ordered with the grid, or a scalar), else the spacing of the '
+            'sorted native grid from compute_bin_edges',
+            any(tab.equal(width, x) for x in wants_w), key='width %s' % fmt(fl, width)[:200],
+            detail='native width is %s' % fmt(fl, width), loc=f.loc(ss[0].node))
     R.check('3b.search', 'ARG', site,
             'window start = first native bin whose upper edge passes the target lower edge; '
             'window stop searched on lower edges [1:] with the target upper edge',
@@ -223,8 +277,23 @@ def flux_bindown(ix, R):
             key='flux = %s' % fmt(fl, fs.value),
             detail='binned flux differs from the overlap-weighted mean: %s' % tab.diff(fs.value, want),
             loc=f.loc(fs.node), extracted=fmt(fl, fs.value))
+    # the flux store runs for every bin that is not skipped; the output starts as zeros of shape (..., n_target)
+    whyf = []
+    skipg = [g for g in fs.guards if not g.early]
+    if skipg:
+        whyf.append('flux store is conditional on %s' % [g.text() for g in skipg])
+    for buf in [fbuf] + ebufs:
+        if fmt(fl, buf) == 'None':
+            continue
+        z = atom_of(fl, unalloc(fl, buf))
+        if z is None or z.head != 'call' or z.extra[0] != 'fn:zeros' or not tab.equal(
+                z.args[0], spec(fl, 'F[..., 0].shape + self._wngrid.shape', b)):
+            whyf.append('output array is %s' % fmt(fl, buf)[:120])
+    R.check('2.out', 'SHAPE', site,
+            'outputs are zero arrays of shape spectrum[..., 0].shape + (n_target,), filled at [..., idx] for every bin that is not skipped',
+            not whyf, key='; '.join(whyf), detail='; '.join(whyf), loc=f.loc(fs.node))
     # error
-    es = one(err_st, 'binned error store')
+    es = err_st[0]
     cands = [spec(fl, 'E[p]', b), spec(fl, '_guard(E is not None, E[p], E)', b)]
     wantes = [spec(fl, 'sqrt(np.sum(wgt*wgt*Er[s:e1]**2, axis=-1)/np.sum(wgt)/np.sum(wgt))', dict(b, Er=c))
               for c in cands]
@@ -407,7 +476,78 @@ def _run(ix, R):
         want_mid = spec(fl, '(nb[1:] + nb[:-1])/2', pe)
         if not any(fl.tab.equal(e.value, want_mid) for e in fl.of('store')):
             why.append('interior edges are not mid-points')
+        if r.guards and [g for g in r.guards if not (g.early and fl.tab.equal(g.rf, spec(fl, 'len(od.shape) - 1', pe)))]:
+            why.append('1-D result returned under %s' % [g.text() for g in r.guards])
+        for e in hs:
+            if [g.node for g in e.guards] != [g.node for g in r.guards]:
+                why.append('histogram call under other conditions than the return')
         R.check('5.hist', 'ALG', site, stmt, not why, key='; '.join(why), detail='; '.join(why), loc=f.loc(r.node))
+        # the edge array, statement by statement
+        E = hs[0].args[1] if hs else None
+        why = []
+        at = atom_of(fl, E) if E is not None else None
+        z = atom_of(fl, unalloc(fl, E)) if E is not None else None
+        if at is None or at.head != 'alloc' or z is None or z.extra[0] != 'fn:zeros' or \
+                not fl.tab.equal(z.args[0], spec(fl, 'nb.shape[0] + 1', pe)):
+            why.append('edge array is %s' % (fmt(fl, E) if E is not None else None))
+        else:
+            b = dict(pe, E=E)
+            want = [('E[0]', None, 'nb[0]'), ('E[0]', 'Add', '-(nb[1] - nb[0])/2'),
+                    ('E[-1]', None, 'nb[-1]'), ('E[-1]', 'Add', '(nb[-1] - nb[-2])/2'),
+                    ('E[1:-1]', None, '(nb[1:] + nb[:-1])/2')]
+            sts = [e for e in fl.of('store') if atom_of(fl, e.target) is not None and atom_of(fl, e.target).head == 'idx'
+                   and fl.tab.equal(atom_of(fl, e.target).args[0], E)]
+            # end stores commute with the interior store; each end's assignment precedes its shift
+            got = [(fmt(fl, e.target), e.op, e) for e in sts]
+            if len(sts) != len(want):
+                why.append('%d writes to the edge array, expected %d' % (len(sts), len(want)))
+            else:
+                used = set()
+                for tg, op, val in want:
+                    hit = [e for e in sts if id(e) not in used and e.op == op and fl.tab.equal(e.target, spec(fl, tg, b))
+                           and fl.tab.equal(e.value, spec(fl, val, b))]
+                    if not hit:
+                        why.append('no statement %s %s %s' % (tg, '+=' if op else '=', val))
+                        continue
+                    used.add(id(hit[0]))
+                    if hit[0].guards or hit[0].loops:
+                        why.append('%s is conditional' % unparse(hit[0].node))
+                for tg in ('E[0]', 'E[-1]'):
+                    pair = [e for e in sts if fl.tab.equal(e.target, spec(fl, tg, b))]
+                    if len(pair) == 2 and not (pair[0].op is None and pair[1].op == 'Add'):
+                        why.append('%s is shifted before it is set' % tg)
+        R.check('5.hist.edges', 'ALG', site,
+                'edges of the histogram binner: mid-points between target centres, first and last centre extended by half '
+                'the neighbouring spacing, len(target)+1 entries', not why, key='; '.join(why), detail='; '.join(why), loc=f.loc())
+    stmt = ('2-D input: column i = mean over the native points with digitize(native, edges, right=True) == i+1, '
+            'i over every target bin')
+    with R.guard('5.hist.2d', 'ALG', site, stmt):
+        f = ix.func(site)
+        from sa.pattern import find
+        bnd, missing = find(f.node, [
+            "V_d = np.digitize(V_ob, V_E, right=True)",
+            "V_m = [V_od[..., V_d == V_i].mean(axis=V_ax) for V_i in range(1, len(V_E))]",
+            "return np.column_stack(V_m)"])
+        ok = bnd is not None
+        if ok:
+            ps = f.params()
+            ok = bnd['V_ob'] == ps[0] and bnd['V_od'] == ps[1]
+            if not ok:
+                missing = ['digitize / mean use %s, %s' % (bnd['V_ob'], bnd['V_od'])]
+        if ok:
+            fl = mkflow(ix, site)
+            pe = param_env(fl, f, ['ob', 'od', 'nb'])
+            ax = [e for e in fl.of('assign') if e.name == bnd['V_ax']]
+            ok = bool(ax) and all(fl.tab.equal(e.value, spec(fl, 'len(od.shape) - 1', pe)) for e in ax)
+            if not ok:
+                missing = ['mean axis is %s' % [fmt(fl, e.value) for e in ax]]
+            dg = [e for e in fl.of('assign') if e.name == bnd['V_d']]
+            hs = calls(fl, 'histogram')
+            if ok and not (len(dg) == 1 and hs and fl.tab.equal(atom_of(fl, dg[0].value).args[1], hs[0].args[1])):
+                ok = False
+                missing = ['digitize does not use the edge array of the 1-D branch']
+        R.check('5.hist.2d', 'ALG', site, stmt, ok, key='; '.join(m[:70] for m in missing),
+                detail='no statements of the expected shape: %s' % missing, loc=f.loc())
 
 
 MUTANTS = [
@@ -441,4 +581,11 @@ EQUIVALENTS = [
     ('weight-commute', FB, 'np.minimum(wn_max, spect_max) - np.maximum(spect_min, wn_min)', 'np.minimum(spect_max, wn_max) - np.maximum(wn_min, spect_min)'),
     ('flux-factor', FB, 'sum_spectrum = np.sum(weight / sum_weight * old_spect_flux[..., save_start:save_stop + 1], axis=-1)', 'sum_spectrum = np.sum(weight * old_spect_flux[..., save_start:save_stop + 1] / np.sum(weight), axis=-1)'),
     ('err-sq', FB, 'sum_noise = np.sqrt(sum_noise / sum_weight / sum_weight)', 'sum_noise = np.sqrt(sum_noise / sum_weight ** 2)'),
+]
+UNCONDITIONAL = [
+    (FB, 'bin_spectrum[..., idx] = sum_spectrum'),
+    (FB, 'self._wngrid = wngrid[sort_grid]'),
+    (FB, 'grid_width = grid_width[sorted_input]'),
+    (UU, 'filter_lhs[0] -= (new_bin[1] - new_bin[0]) / 2'),
+    (UU, 'filter_lhs[1:-1] = (new_bin[1:] + new_bin[:-1]) / 2'),
 ]
